@@ -141,8 +141,19 @@ def build_job(prop, tier, seed, n_episodes, grammars, steps=(12, 30), vocab_choi
         eps.append({"gid": name, "mode": prop, "seed": rng.randrange(1 << 30), "steps": rng.randint(*steps),
                     "gram": g, "cfgs": cfgs, "w": w, "eos_pct": rng.choice([5, 15, 30]),
                     "hints": hints_for(g), "hint_pct": rng.choice([20, 50, 80]),
-                    "vocab_kind": vc, "canonical": canonical})
+                    "vocab_kind": vc, "canonical": canonical, "eos_plain": eos_plain(name, g)})
     return {"episodes": eps}
+
+
+def eos_plain(name, g):
+    """1 when the grammar neither names tokens (<[..]>, <|..|>) nor has a lexeme that may end at EOS (stop= / suffix= /
+    max_tokens=): then every committed end-of-sequence token must end the run with EndOfSentence"""
+    if name.startswith("ext:"):
+        return 0
+    t = gram_text(g)
+    if g.get("kind") == "lark" and any(x in t for x in ("stop=", "suffix=", "max_tokens", "<[", "<|", "%lark", "temperature")):
+        return 0
+    return 1
 
 
 def shard(job, k):
@@ -504,6 +515,39 @@ def check_threads(tier, seed):
                     res.distinct(hashlib.sha1("\n".join(cur[1:]).encode()).hexdigest())
                 cur = []
             cur.append(ln)
+    # the batch call (rayon): clone families with diverging histories - some finished, some running - write their masks into
+    # ONE contiguous buffer of equal slots; every slot must hold that clone's own mask (twin Rust objects computed one by
+    # one), nothing behind the last slot may be touched, and the process must survive (spec/Ffi.tla ParMask)
+    short = [g for g in corpus.all_grammars() if g[0] in ("fixed", "ab_abc", "rep_rule", "alt_prefixes", "shared_lexeme", "opt_star_plus",
+                                                          "forced_then_free", "nested_rep", "rx:opt", "rx:digits", "kw_id")]
+    beps = []
+    for i in range(40 if q else 600):
+        name, g = short[i % len(short)]
+        voc = sized_vocab(rng, rng.choice([33, 64, 65, 97, 257]), gram_text(g)) if rng.random() < 0.7 else vocabs.byte(0)
+        beps.append({"gid": "batch:" + name, "gram": g, "vocab": voc, "steps": rng.randint(6, 12), "seed": rng.randrange(1 << 30),
+                     "par": rng.choice([4, 5, 8, 16]), "contig": 1, "no_matcher": 1})
+    bsh = [beps[i::4] for i in range(4) if beps[i::4]]
+
+    def gob(ix):
+        jp = os.path.join(wd, f"bjob{ix}.json")
+        tp = os.path.join(wd, f"btrace{ix}.ndjson")
+        json.dump({"episodes": bsh[ix]}, open(jp, "w"))
+        p = core.run_bin("ffi", [jp, tp], timeout=7200, check=False)
+        if p.returncode != 0:
+            return {"crash": p.returncode, "stderr": p.stderr[-300:]}, None, jp
+        return json.loads(p.stdout.strip().splitlines()[-1]), core.validate_file("Trace_Ffi", tp, "C14", tier, seed, timeout=7200,
+                                                                                 tagbase=f"C14b{ix}"), tp
+
+    nbatch = 0
+    for st, tot, tp in core.parallel(gob, list(range(len(bsh))), workers=4):
+        if tot is None:
+            res.violation({"kind": "process-crash-in-batch-call", "rc": st["crash"], "stderr": st["stderr"]}, tp)
+            continue
+        res.add_validation(tot)
+        nbatch += sum(1 for ln in core.read_lines(tp) if '"ev":"ParMask"' in ln[:30])
+        for rj in tot["rejects"]:
+            res.violation(dict(signature(rj), part="batch-call"), rj["replay"])
+    res.cov["batch_masks_compared"] = nbatch
     res.cov["rule"] = ("U1: every interleaving of lock / take-lexer / operate / put-back / release steps of 3 clones "
                        "(clone and deep_clone) in spec/Shared.tla; U3: families of 2..16 clones with diverging histories, "
                        "each driven by its own OS thread through random calls, every event logged at its return; TLC "
